@@ -5,7 +5,8 @@
 //verif:replace (*github.com/gammazero/workerpool.WorkerPool).Submit github.com/celestiaorg/celestia-node/share/eds.verifSubmit
 //verif:bound proofs served from the proof cache: ODS width 2 (EDS 4x4) whose 4 cells carry namespaces from {A<B<C} in any sorted assignment with symbolic contents, pairwise different within the row read (equal shares would share one NMT leaf node), the row read committed through the real wrapper / nmt code over the ideal hash and codec; the proof-caching accessor over the in-memory square, cache cold or warmed by a half / share read of the same row; sample at EVERY coordinate of the extended square (quick tier: namespace layout A,A,B,C only; thorough: all 15 layouts); row namespace data for every data row and namespaces A, B, C, one between A and B, one below A and one above C
 //verif:assume the worker pool of share/ipld runs each submitted task as a goroutine of the cooperative scheduler (round-robin, no preemption inside the walk): interleavings of the tree walk's workers are outside this harness
-//verif:outside trees wider than 4 leaves, the IPLD getters over a real blockservice / Bitswap session
+//verif:bound thorough tier: also ODS width 4 (8-leaf row trees; namespace data over all 15 sorted layouts of a row, samples over the layout A,A,B,C)
+//verif:outside trees wider than 8 leaves (quick: 4), the IPLD getters over a real blockservice / Bitswap session
 package eds
 
 import (
@@ -37,19 +38,48 @@ var (
 // a committed 4x4 EDS whose ODS cells carry sorted namespaces out of {A,B,C}
 var verifIpOneLayout bool // quick tier of the sample harness: one namespace layout (A,A,B,C)
 
+var verifIpK = 2 // ODS width (thorough: also 4)
+
+// ODS width for this path: 2, in the thorough tier also 4
+func verifIpPickK() int {
+	verifIpK = 2
+	if nd.Thorough() {
+		verifIpK = 2 << nd.Choice(2, "odsLog")
+	}
+	return verifIpK
+}
+
+// a committed 2k x 2k EDS whose ODS cells carry sorted namespaces out of
+// {A,B,C}. Width 2: every sorted assignment of the 4 cells. Width 4: every
+// sorted assignment of the 4 cells of each row (all rows alike - a row tree
+// depends on its own row only).
 func verifIpSquare() ([][]libshare.Share, [][]libshare.Namespace, *rsmt2d.ExtendedDataSquare) {
-	const k = 2
+	k := verifIpK
 	three := []libshare.Namespace{verifIpNsA, verifIpNsB, verifIpNsC}
 	cells := make([][]libshare.Share, 2*k)
 	nss := make([][]libshare.Namespace, k)
 	for r := range cells {
 		cells[r] = make([]libshare.Share, 2*k)
 	}
+	var rowLayout []int
+	if k > 2 {
+		low := 0
+		for c := 0; c < k; c++ {
+			if verifIpOneLayout {
+				low = []int{0, 0, 1, 2}[c%4]
+			} else {
+				low += nd.Choice(3-low, "nsStep")
+			}
+			rowLayout = append(rowLayout, low)
+		}
+	}
 	low := 0
 	for r := 0; r < k; r++ {
 		nss[r] = make([]libshare.Namespace, k)
 		for c := 0; c < k; c++ {
-			if verifIpOneLayout {
+			if rowLayout != nil {
+				low = rowLayout[c]
+			} else if verifIpOneLayout {
 				low = []int{0, 0, 1, 2}[r*k+c]
 			} else {
 				low += nd.Choice(3-low, "nsStep")
@@ -127,7 +157,7 @@ func verifIpWarm(ctx context.Context, acc AccessorStreamer, row int) {
 	case 2: // the streamed square caches halves (and extended shares for parity columns)
 		rd, err := acc.Reader()
 		nd.Assert(err == nil, "stream-opens")
-		_, err = ReadShares(rd, libshare.ShareSize, 2)
+		_, err = ReadShares(rd, libshare.ShareSize, verifIpK)
 		nd.Assert(err == nil, "stream-readable")
 		nd.Cover("warm-stream")
 	default:
@@ -143,9 +173,9 @@ func verifIpWarm(ctx context.Context, acc AccessorStreamer, row int) {
 //verif:opts nopanic nodeadlock noreplay preempt=0 threads=40 maxwall=600 maxwall_thorough=2400 cover=cold,warm-half,warm-stream,second-sample
 func VerifH_C05_CachedSampleProofsVerify() {
 	shwap.VerifModelReset()
-	const k = 2
+	k := verifIpPickK()
 	ctx := context.Background()
-	verifIpOneLayout = !nd.Thorough()
+	verifIpOneLayout = !nd.Thorough() || k > 2
 	cells, _, sq := verifIpSquare()
 	verifIpOneLayout = false
 	inner := &Rsmt2D{ExtendedDataSquare: sq}
@@ -184,7 +214,7 @@ func VerifH_C05_CachedSampleProofsVerify() {
 //verif:opts nopanic nodeadlock noreplay preempt=0 threads=40 maxwall=600 maxwall_thorough=2400 cover=present,absent-inside,outside,cold,warm-half,warm-stream
 func VerifH_C05_CachedRowNamespaceDataVerifies() {
 	shwap.VerifModelReset()
-	const k = 2
+	k := verifIpPickK()
 	ctx := context.Background()
 	cells, nss, sq := verifIpSquare()
 	inner := &Rsmt2D{ExtendedDataSquare: sq}
